@@ -1,4 +1,6 @@
 import GV.Proofs.PipelineHist
+import GV.Proofs.PipelineDrain
+import GV.Proofs.PipelineLive
 /-!
 C44 — A failed submission does not stall later blocks.
 
@@ -54,6 +56,29 @@ theorem accepted_blocks_all_applied (c : Cfg) (hc : c.legacy = false) (s : St) (
   simp only [decided, outAll, q6, hn, List.map_nil, List.append_nil] at ha hres
   refine ⟨?_, hres⟩
   rw [ha, ← hlen, List.take_length]
+
+/-- Liveness without a fairness assumption. From any reachable state (failed submissions
+    included in its history) let only the pipeline goroutines run, in any order: such a run has
+    at most `measure s` steps, and wherever it stands, either some goroutine can still take a
+    step or every block accepted so far has been applied. So the accepted blocks ARE applied
+    unless the scheduler stops scheduling the pipeline: no failed submission can stall them. -/
+theorem accepted_blocks_get_applied (c : Cfg) (hc : c.legacy = false) (s : St) (hr : Reachable c s)
+    (hcn : s.cancelled = false) (es : List Ev) (s' : St)
+    (hint : ∀ e ∈ es, internal e = true) (hrun : run c s es = some s') :
+    es.length ≤ measure s ∧
+    ((∃ e, internal e = true ∧ (step c s' e).isSome = true) ∨
+     (s'.applied = okSeqs c s.subs ∧ s'.results = List.range s.counter)) := by
+  have hb := internal_run_bounded c es s s' hint hrun
+  obtain ⟨k1, k2, k3⟩ := internal_run_keeps c es s s' hint hrun
+  have hr' : Reachable c s' := reachable_run es hr hrun
+  refine ⟨by omega, ?_⟩
+  by_cases hq : Quiescent s'
+  · right
+    have := accepted_blocks_all_applied c hc s' hr' (by rw [k2]; exact hcn) hq
+    rw [k1, k3] at this
+    exact this
+  · left
+    exact progress c s' (wf_reachable c s' hr') hq
 
 /-- Non-vacuity: a schedule with two failed submissions around accepted blocks, ending at rest. -/
 example :
